@@ -53,6 +53,8 @@ TRICKY_STRS = ["C:\\", "a\\", "\\", "it's", 'say "hi"', "{x}", "{}", "{", "}", "
 # generated text must not find its own patterns inside user strings)
 TRICKY_STRS += ["x''+", "''+", "exp ''+ 2024", "'+'", "''", "+", "''.join(", "''.join(map(str, [uid]))", "')+(", "partial(", "deterministic_choice(", "weights=[1, 1]", "],",
                 "population=[", "input_id=", "**kwargs", "):", "def f():", "return 'x'", "\t\t", "if (", " == ", "(a == 'b')", "raise ", "lambda: 0", "[", "]", "=", "==", ":", "'s'+", "+''"]
+# strings that are complete documents in some data format (a decoder that sniffs content must not run on them)
+TRICKY_STRS += ['[]', '[1, 2]', "{'a': 1}", '{"a": 1}', '[{"a": [1]}]', "null", "true", "123", "1.5e3", "<a>b</a>", "a=1&b=2", "---", "key: value", "b'x'", "0b11", "1_0", "(1+2)", "[1,2][0]"]
 SALT_TEMPLATES = ["{%s}", "{%s}:v1", "x{%s!r}", "%%(%s)s", "${%s}", "{%s:>4}", "{0}{%s}"]
 
 
